@@ -51,7 +51,7 @@ CLAIMED = {
              "compiled models and an executable specification, with shrinking of any disagreement.",
         ref="DESIGN.md §6 C09",
         note="Trusted: the OS-file model (pread/pwrite/ftruncate), the hand-written models (tied by canonical text + "
-             "sampling), offsets in unbounded Nat (exact below 2^51 blocks). ReadTo into non-block buffers is outside "
+             "sampling), offsets in unbounded Nat (equal to the code's uint64/int64 offsets for every disk NewFileDisk opens: openable_offsets_exact). ReadTo into non-block buffers is outside "
              "the quantifier (implementations differ there by design) and is compared with the models only.",
         tech="Lean 4 refinement proof (simulation, induction over histories) + regenerated facts + differential correspondence"),
     "C11": dict(
